@@ -4,7 +4,7 @@
 # the demonstration passes without it and fails with it. Log: <round dir>/logs/<id>.log
 R=$1; ID=$2; DEST=$3; DEMO=$4; shift 5
 LOG=$R/logs/$ID.log; mkdir -p $R/logs
-WT=/tmp/mut
+WT=${MUT_WT:-/tmp/mut}
 [ -d $WT ] || git -C /repo worktree add -q --detach $WT HEAD
 git -C $WT checkout -q --detach $(git -C /repo rev-parse HEAD); git -C $WT checkout -q -- .; git -C $WT clean -fdq -e target
 export CARGO_TARGET_DIR=$WT/target CARGO_NET_OFFLINE=true
